@@ -863,7 +863,9 @@ func (s *AbsfsNFS) ReadDirPlus(dir *NFSNode) ([]*NFSNode, error) {
 	// Pre-cache attributes for all entries
 	for _, node := range nodes {
 		if attrs, found := s.attrCache.Get(node.path, s); !found || attrs == nil || !attrs.IsValid() {
-			info, err := s.fs.Stat(node.path)
+			// Lstat, like LOOKUP and GETATTR: an entry that is a symbolic link is
+			// reported as the link, not as its target.
+			info, err := s.fs.Lstat(node.path)
 			if err != nil {
 				continue
 			}
@@ -874,11 +876,14 @@ func (s *AbsfsNFS) ReadDirPlus(dir *NFSNode) ([]*NFSNode, error) {
 			node.mu.RUnlock()
 
 			modTime := info.ModTime()
+			h := fnv.New64a()
+			h.Write([]byte(node.path))
 			attrs := &NFSAttrs{
-				Mode: info.Mode(),
-				Size: info.Size(),
-				Uid:  uid,
-				Gid:  gid,
+				Mode:   info.Mode(),
+				Size:   info.Size(),
+				FileId: h.Sum64(), // same fileid as LOOKUP/GETATTR report for this path
+				Uid:    uid,
+				Gid:    gid,
 			}
 			attrs.SetMtime(modTime)
 			attrs.SetAtime(modTime)
